@@ -37,7 +37,7 @@ func LoadFindings(root string) ([]Finding, error) {
 	return f.Findings, nil
 }
 
-func assignIDs(prefix string, cases []Case) {
+func AssignIDs(prefix string, cases []Case) {
 	for i, c := range cases {
 		c["id"] = fmt.Sprintf("%s%d", prefix, i)
 	}
@@ -155,7 +155,7 @@ func run(env *Env, chk *Check, res *Result) (int, error) {
 				return 2, MachineryError{err.Error()}
 			}
 			cs := d.ToCases(env, em)
-			assignIDs(d.Name+"-", cs)
+			AssignIDs(d.Name+"-", cs)
 			env.Logf("design %s: %d behaviours emitted -> %d cases", d.Name, len(em), len(cs))
 			res.Cov["cases.from-spec."+d.Name] = len(cs)
 			cases = append(cases, cs...)
@@ -165,7 +165,7 @@ func run(env *Env, chk *Check, res *Result) (int, error) {
 	// 3. seeded random cases and the regression corpus (witnesses of fixed and open findings)
 	if chk.Cases != nil {
 		cs := chk.Cases(env)
-		assignIDs("rnd-", cs)
+		AssignIDs("rnd-", cs)
 		res.Cov["cases.random"] = len(cs)
 		cases = append(cases, cs...)
 	}
@@ -179,7 +179,7 @@ func run(env *Env, chk *Check, res *Result) (int, error) {
 			corpus = append(corpus, c)
 		}
 	}
-	assignIDs("corpus-", corpus)
+	AssignIDs("corpus-", corpus)
 	cases = append(cases, corpus...)
 
 	if len(cases) > 0 && chk.TraceModule != "" {
@@ -233,7 +233,7 @@ func pipeline(env *Env, chk *Check, res *Result, cases []Case, open map[string]F
 		byID[t["id"].(string)] = t
 		inByID[t["id"].(string)] = cases[i]
 	}
-	bad, st, err := validateByModule(env, chk.TraceModule, traces, "main")
+	bad, st, err := ValidateByModule(env, chk.TraceModule, traces, "main")
 	if err != nil {
 		return 2, err
 	}
@@ -294,7 +294,7 @@ func pipeline(env *Env, chk *Check, res *Result, cases []Case, open map[string]F
 	if err != nil {
 		return 2, err
 	}
-	bad2, _, err := validateByModule(env, chk.TraceModule, re, "re")
+	bad2, _, err := ValidateByModule(env, chk.TraceModule, re, "re")
 	if err != nil {
 		return 2, err
 	}
@@ -343,7 +343,7 @@ func pipeline(env *Env, chk *Check, res *Result, cases []Case, open map[string]F
 
 // validateByModule validates each trace with the trace specification its case names ("tm"),
 // the check's own module by default.
-func validateByModule(env *Env, def string, traces []Case, tag string) ([]Bad, TLCStats, error) {
+func ValidateByModule(env *Env, def string, traces []Case, tag string) ([]Bad, TLCStats, error) {
 	groups := map[string][]Case{}
 	var order []string
 	for _, t := range traces {
@@ -411,7 +411,7 @@ func Replay(root, path string) int {
 		fmt.Println("ERROR:", err)
 		return 2
 	}
-	bad, _, err := validateByModule(env, rec.TraceModule, tr, "replay")
+	bad, _, err := ValidateByModule(env, rec.TraceModule, tr, "replay")
 	if err != nil {
 		fmt.Println("ERROR:", err)
 		return 2
